@@ -161,6 +161,7 @@ def suite(chk, nseeds, base=0, nobarrier_every=0, is_own=None):
                        "call_rcu_data_free with callbacks pending, synchronize_rcu; 0-2 admin threads doing create_all_cpu/free_all_cpu/"
                        "set_cpu_call_rcu_data (1-4 CPUs, out-of-range and occupied slots) with the documented unpublish-sync-free protocol; "
                        "futex fault plans (spurious, EINTR, ENOSYS→compat); teardown through free_all_cpu, rcu_barrier and urcu_call_rcu_exit; "
+                       "plus directed sweeps (one forced preemption / one held thread at every event of the window): helper dec/empty-check/sleep vs enqueue, enqueue/wake vs helper start, and the documented per-CPU teardown (set_cpu NULL; synchronize_rcu; call_rcu_data_free / free_all_cpu) vs a call_rcu() held between its per-CPU lookup and its enqueue; "
                        "random-walk (pswitch 3-60) and PCT strategies drawn from VERIF_SEED, for memb+membarrier, memb fallback and mb; every event "
                        "replayed on Driver/CallRcu.lean; non-trivial = a callback invoked after a helper grace period, a helper woken from FUTEX_WAIT "
                        "(or an RT helper polling), and a hand-over on destroy / a per-CPU selection / a barrier wake-up; distinct = different (config, driver coverage summary)")
@@ -213,9 +214,33 @@ def sweep(chk, modes, own, record=True, wide=False, first_only=True, fdiv=None):
     return done_sweep(chk, runs, fails, record)
 
 
-def done_sweep(chk, runs, fails, record):
+def directed(chk, own, fdiv, record=True, wide=False):
+    """directed teardown scenarios (oneshot 5: set_cpu_call_rcu_data(cpu, NULL); synchronize_rcu(); call_rcu_data_free(H);
+    oneshot 6: free_all_cpu_call_rcu_data()) against a call_rcu() through the per-CPU helper H: the enqueuer T1 is
+    descheduled (--hold-at N: it runs only when nothing else can) at every event N of its call_rcu(), long enough for
+    the whole teardown.  Unchanged code: the grace period waits for T1's read-side section, T1 enqueues first, the
+    leftover is handed over.  Returns failing results."""
+    fails, runs = [], 0
+    for flavor, memb, cname in CONFIGS:
+        for mode in (5, 6):
+            for n in (range(1, 90) if wide else range(4, 46)):
+                for ln in ((600, 2000) if wide else (600,)):
+                    r = one(flavor, memb, 1, ["--oneshot", mode, "--strategy", "sweep", "--ncpus", 1, "--hold-at", n,
+                                              "--hold-tid", 1, "--hold-len", ln])
+                    runs += 1
+                    if r["verdict"] != "ok":
+                        r["config"] = cname
+                        fails.append(r)
+                        if r["verdict"] in ("oracle", "crash") and mine(r, own, fdiv):
+                            return done_sweep(chk, runs, fails, record, "directed_runs")
+                        if len(fails) >= 3 and not wide:
+                            return done_sweep(chk, runs, fails, record, "directed_runs")
+    return done_sweep(chk, runs, fails, record, "directed_runs")
+
+
+def done_sweep(chk, runs, fails, record, key="sweep_runs"):
     if record:
-        chk.cov["sweep_runs"] = chk.cov.get("sweep_runs", 0) + runs
+        chk.cov[key] = chk.cov.get(key, 0) + runs
         chk.cov["evaluations"] += runs
     return fails
 
@@ -280,6 +305,9 @@ def report(chk, fails, own, foreign_div, search):
 def search_own(chk, own, modes, n, fdiv):
     """failing-input search: wide one-preemption sweep, then many more random/PCT schedules, with the implementation oracles"""
     def go():
+        for r in directed(chk, own, fdiv, record=False, wide=True):
+            if r["verdict"] in ("oracle", "crash") and mine(r, own, fdiv):
+                return r
         for r in sweep(chk, modes, own, record=False, wide=True, first_only=False, fdiv=fdiv):
             if r["verdict"] in ("oracle", "crash") and mine(r, own, fdiv):
                 return r
@@ -307,6 +335,8 @@ def run(chk):
     fails = suite(chk, n, nobarrier_every=2, is_own=lambda f: mine(f, OWN, is_barrier_divergence))
     if not [f for f in fails if mine(f, OWN, is_barrier_divergence)]:
         fails += sweep(chk, SWEEPS, OWN, wide=(chk.tier == "thorough"), fdiv=is_barrier_divergence)
+    if not [f for f in fails if mine(f, OWN, is_barrier_divergence)]:
+        fails += directed(chk, OWN, is_barrier_divergence, wide=(chk.tier == "thorough"))
     h = chk.cov.get("branch_histogram", {})
     chk.cov["futex_paths"] = {k: v for k, v in h.items() if "futex" in k or "wake" in k}
     report(chk, fails, OWN, is_barrier_divergence, search_own(chk, OWN, SWEEPS, 300 if chk.tier == "quick" else 3000, is_barrier_divergence))
